@@ -203,12 +203,18 @@ def writeFrame (f : Frame) : Except HErr Bytes :=
 /-- frame.go:CompileFrame = WriteFrame into a bytes.Buffer. -/
 def compileFrame (f : Frame) : Except HErr Bytes := writeFrame f
 
-/-- read.go:ReadFrame. The `make([]byte, Length)` allocation is not modelled here (see C15). -/
+/-- The Go runtime refuses `make([]byte, n)` with a panic ("makeslice: len out of range") when n
+    exceeds the address space it manages (maxAlloc = 2^48 on linux/amd64). -/
+def maxSliceLen : Nat := 281474976710656
+
+/-- read.go:ReadFrame. `make([]byte, Length)` is modelled as far as it panics (`.fault`); lengths
+    it accepts but the machine cannot back are outside the model (see C15). -/
 def readFrame (s : Src) : Except HdrErr Frame × Src :=
   match readHeaderWs s with
   | (.error e, s1) => (.error e, s1)
   | (.ok h, s1) =>
-    if h.len > 0 then
+    if h.len > maxSliceLen then (.error .fault, s1)
+    else if h.len > 0 then
       match s1.readFull h.len with
       | (.error e, s2) => (.error (.io e), s2)
       | (.ok p, s2) => (.ok ⟨h, p⟩, s2)
